@@ -84,9 +84,62 @@ def packet_case(ctx, case):
     if cls is None:
         ctx.fail('packet', 'G4-class-missing', case)
         return
+    # 'recycle': the caller's packet objects were used before, for the same
+    # packet of another release (written resp. read there), and are filled /
+    # read again here after their context has moved on to this release
+    old_w = old_r = None
+    rc = case.get('recycle')
+    if rc:
+        p0 = refproto.packet(rc['release'], name)
+        if p0['present'] and get_cls(p0)[1] is cls:
+            try:
+                c0 = P4.ctx_for(rc['release'])
+                specs0 = specs_of(p0)
+                old_w, old_r = cls(), cls()
+                old_w.context = old_r.context = c0
+                for a, t in p0['layout']:
+                    setattr(old_w, a, P5.to_py(specs0[a], rc['values'][a]))
+                old_w.write(Sink())
+                from minecraft.networking.packets import PacketBuffer
+                b0 = PacketBuffer()
+                b0.send(refproto.encode_fields(p0['layout'], rc['values']))
+                b0.reset_cursor()
+                old_r.read(b0)
+                ctx.label('packet_recycled_object')
+            except Exception:
+                old_w = old_r = None     # judged by that release's own case
     c = P4.ctx_for(rel)
     specs = specs_of(p)
     ref_body = refproto.encode_fields(p['layout'], vals)
+    if old_w is not None:
+        old_w.context = old_r.context = c
+        try:
+            for a, t in p['layout']:
+                setattr(old_w, a, P5.to_py(specs[a], vals[a]))
+            s0 = Sink()
+            old_w.write(s0)
+            got0 = P5.frame_split(s0.value)
+            if got0 != (p['id'], ref_body):
+                ctx.fail('packet', 'G2-bytes-recycled-object', case,
+                         (got0[0], got0[1].hex()[:300]),
+                         (p['id'], ref_body.hex()[:300]))
+        except Exception as e:
+            ctx.fail('packet', 'G2-recycled-object-raises', case, exc=e)
+        try:
+            from minecraft.networking.packets import PacketBuffer
+            b1 = PacketBuffer()
+            b1.send(ref_body)
+            b1.reset_cursor()
+            old_r.read(b1)
+            for a, t in p['layout']:
+                if not hasattr(old_r, a) or not P5.same5(
+                        specs[a], vals[a], getattr(old_r, a)):
+                    ctx.fail('packet', 'G3-field-recycled-object',
+                             dict(case, field=a),
+                             repr(getattr(old_r, a, None))[:200],
+                             repr(vals[a])[:200])
+        except Exception as e:
+            ctx.fail('packet', 'G3-recycled-object-raises', case, exc=e)
     # G2: pyCraft writes == reference
     pk = cls()
     pk.context = c
@@ -267,9 +320,13 @@ def boundary_values(p, rel, specs, r):
     return vals
 
 
-def t_table(ctx, rounds):
-    releases_case(ctx, {})
-    for rel in refproto.RELEASES:
+_RECYCLE_FROM = (47, 340, 578, 757)
+
+
+def t_table(ctx, rounds, part=0, parts=1):
+    if part == 0:
+        releases_case(ctx, {})
+    for rel in list(refproto.RELEASES)[part::parts]:
         for p in refproto.core_packets(rel):
             membership_case(ctx, {'release': rel, 'packet': p['name']})
             if not p['present']:
@@ -281,6 +338,15 @@ def t_table(ctx, rounds):
                 packet_case(ctx, case)
                 if ctx.evaluations % 900 == 5:
                     ctx.sample(case, 'packet')
+                if r >= 6 or not p['layout']:
+                    continue
+                for r0 in _RECYCLE_FROM:
+                    p0 = refproto.packet(r0, p['name'])
+                    if r0 == rel or not p0['present']:
+                        continue
+                    packet_case(ctx, dict(case, recycle={
+                        'release': r0, 'values': boundary_values(
+                            p0, r0, specs_of(p0), r + 1)}))
     ctx.exhaustive_done('releases x core packets: ids, membership, boundary '
                         'values')
 
@@ -293,12 +359,24 @@ def t_random(ctx, n):
     def vs(pr):
         rel, name = pr
         p = refproto.packet(rel, name)
-        return st.tuples(st.just(pr), tweak_strategy(p, rel, specs_of(p)))
+        others = [r for r in refproto.RELEASES if r != rel and
+                  refproto.packet(r, name)['present']]
+
+        def rec(r0):
+            p0 = refproto.packet(r0, name)
+            return st.fixed_dictionaries({
+                'release': st.just(r0),
+                'values': tweak_strategy(p0, r0, specs_of(p0))})
+        return st.tuples(st.just(pr), tweak_strategy(p, rel, specs_of(p)),
+                         st.one_of(st.none(), st.sampled_from(others)
+                                   .flatmap(rec)) if others else st.none())
     strat = st.sampled_from(pairs).flatmap(vs)
 
     def body(c, t):
-        (rel, name), vals = t
+        (rel, name), vals, rc = t
         case = {'release': rel, 'packet': name, 'values': vals}
+        if rc:
+            case['recycle'] = rc
         packet_case(c, case)
         if c.evaluations % 500 == 5:
             c.sample(case, 'packet')
@@ -328,7 +406,8 @@ def t_via_connection(ctx, releases):
 def tasks(tier):
     q = tier == 'quick'
     rels = list(refproto.RELEASES)
-    tl = [('table', t_table, dict(rounds=12 if q else 40))]
+    tl = [('table_%d' % i, t_table,
+           dict(rounds=12 if q else 40, part=i, parts=4)) for i in range(4)]
     for part in ([rels[::6], rels[3::6]] if q else
                  [rels[i::6] for i in range(6)]):
         tl.append(('via_connection_%d' % part[0], t_via_connection,
